@@ -133,7 +133,9 @@ namespace options
 
                 if (!env_value.empty())
                 {
-                    update_value(env_value);
+                    // the value is taken verbatim, it must not be parsed like an argument
+                    dirty_ = true;
+                    value_ = env_value;
 
                     return;
                 }
